@@ -85,7 +85,13 @@ def join_states(a, b):
         f = {}
         for k in set(fa) | set(fb):
             if k in fa and k in fb:
-                f[k] = join(fa[k], fb[k])
+                if isinstance(k, str) and k.startswith("#minlen:") and \
+                        isinstance(fa[k], int) and isinstance(fb[k], int):
+                    f[k] = min(fa[k], fb[k])
+                else:
+                    f[k] = join(fa[k], fb[k])
+            elif isinstance(k, str) and k.startswith("#"):
+                continue
             else:
                 f[k] = UNK
         s.frames.append(f)
